@@ -888,7 +888,8 @@ class Fxp():
 
             # rounding and overflowing
             scaled_val = val * conv_factor
-            if self.n_frac < 0 and not raw and scaled_val.dtype != object and np.issubdtype(scaled_val.dtype, np.floating):
+            if self.n_frac < 0 and not raw and isinstance(scaled_val, (np.ndarray, np.generic)) and scaled_val.dtype != object and \
+                np.issubdtype(scaled_val.dtype, np.floating):
                 # a non-zero value must not vanish when the product underflows: ceil and floor need its sign
                 _vanished = (scaled_val == 0) & (val != 0)
                 if np.any(_vanished):
